@@ -6,7 +6,8 @@ from bounded.common import outcome
 from bounded import gen
 
 RULE = ("find_vertices: built-in filter grid + user-defined filters implementing the documented interface "
-        "valid(self, dna_string) (regional GC, k-mer blacklist, reject-all) x k = 1..4 (quick) / 1..6 (thorough); "
+        "valid(self, dna_string) (regional GC, k-mer blacklist, reject-all) x k = 1..4 (quick) / 1..6 (thorough) + filters accepting exactly 1 or 2 "
+        "k-mers for k = 1..6; "
         "connect_valid_graph: seeded (quick: 3000) / all 65,536 (thorough) order-2 masks, both dtypes, + None / empty mask; "
         "non-trivial = mask has >= 2 marked vertices")
 EXHAUSTIVE = {"quick": False, "thorough": True}
@@ -31,13 +32,20 @@ def user_filter(kind, k, param):
         def valid(self, dna_string):
             return (S.val4(dna_string) * 7 + param) % 5 != 0
 
+    class Single(DefaultBioFilter):               # accepts exactly `param` k-mers (the rarest non-empty masks)
+        def __init__(self):
+            super().__init__(screen_name="single")
+
+        def valid(self, dna_string):
+            return S.val4(dna_string) in [(7 * j + 3) % (4 ** k) for j in range(param)]
+
     class Nothing(DefaultBioFilter):
         def __init__(self):
             super().__init__(screen_name="nothing")
 
         def valid(self, dna_string):
             return False
-    return {"regional": Regional, "blacklist": Blacklist, "nothing": Nothing}[kind]()
+    return {"regional": Regional, "blacklist": Blacklist, "nothing": Nothing, "single": Single}[kind]()
 
 
 def cases(tier, rng):
@@ -45,6 +53,9 @@ def cases(tier, rng):
     for k in range(1, kmax + 1):
         for kind, param in (("regional", 0.1), ("regional", 0.3), ("blacklist", 1), ("blacklist", 3), ("nothing", 0)):
             yield {"kind": "user", "k": k, "filter": kind, "param": param, "nt": True}
+    for k in range(1, 7):
+        for param in (1, 2):
+            yield {"kind": "user", "k": k, "filter": "single", "param": param, "nt": True}
     for i, cfg in enumerate(gen.FILTER_GRID):
         yield {"kind": "builtin", "cfg": i, "nt": True}
     yield {"kind": "builtin-none", "nt": True}
